@@ -10,7 +10,9 @@ from vmon.gen import txgen as G
 PROPERTY = "C13"
 PRELOAD_NETWORK_ORDERS = [["btc", "xtn", "ltc", "bch", "grs", "doge", "dash", "btg"], ["btg", "grs", "bch", "doge", "ltc", "xtn", "btc"]]
 LEVEL = "exploration"
-TECHNIQUE = ("integer arithmetic model of the split pool + caller-activity histories after a build + single-discrepancy source databases "
+TECHNIQUE = ("integer arithmetic model of the split pool + sessions on caller-owned transactions (every output-script kind x every producer of the "
+             "object, refused calls interleaved with judged retries, sessions on several networks interleaved) + one long run of > 2**16 "
+             "operations on one object / in one process + caller-activity histories after a build + single-discrepancy source databases "
              "verified in several transaction states / call histories + edit -> re-query histories on one transaction object against a "
              "model of the caller's edits + exact rational conversion oracle")
 RULE = ("cases: (a) create_tx / distribute_from_split_pool builds with 1..8 spendables (objects, text, dict forms), payables mixing fixed "
@@ -33,7 +35,21 @@ RULE = ("cases: (a) create_tx / distribute_from_split_pool builds with 1..8 spen
         "txs_out value / append / pop / assignment, zeroing outputs + distribute_from_split_pool (feasible or not), a second object with the "
         "same inputs and outputs (from_bin + set_unspents, constructor, as_hex(include_unspents=True) -> from_hex) used in turn with the "
         "first; the readings fee / total_in / total_out / validate_unspents in random order and subset; distinct by entry and the sequence of "
-        "operations. Non-trivial: k>=1 or a discrepancy or amount != 0 or a history.")
+        "operations; (f) sessions on ONE caller-owned transaction handed to distribute_from_split_pool: the object made by the constructor + "
+        "set_unspents, the constructor's unspents= argument, from_bin + set_unspents, as_hex(include_unspents) -> from_hex, from_bin + "
+        "parse_unspents, from_bin + unspents_from_db, a transaction with witness data, inputs filled in, create_tx, create_tx + sign_tx; "
+        "records as Spendable or TxOut; its unspecified outputs carrying every kind of script (p2pkh, p2sh, p2pk, witness programs, "
+        "multisig, address scripts, nulldata in five spellings, OP_RETURN inside, empty, non-standard, random, > 10000 bytes, the script "
+        "being spent, duplicates) and 252/253/254 of them; 1-5 rounds of: a call refused for insufficient funds (remainder < 0, = 0, "
+        "0 < R < k; an amount of 2**63 / 2**64), a call with a fee / recorded amount / output amount / record of the wrong type "
+        "(None, str, float, list, bytes), then a retry with a lower fee or after adding an input, the caller un-specifying outputs "
+        "again, appending outputs; three sessions on different networks run interleaved step by step; every fifth case is a create_tx "
+        "whose caller-owned spendables and payables (tuple / list / bare entries) are compared before and after, preceded by a build "
+        "the library cannot complete (unreadable entry after readable ones, amount / fee of the wrong type, insufficient funds) and "
+        "followed by a second build from the very same objects with another fee; (g) ONE long run: 2**16+100 (thorough 2**17+100) "
+        "distribute_from_split_pool calls on one object (every 61st refused and retried), as many create_tx calls from the same "
+        "arguments in the same process, and twice as many validate_unspents calls on one object with its record right and wrong in "
+        "turn, each judged by running arithmetic. Non-trivial: k>=1 or a discrepancy or amount != 0 or a history.")
 ASSUMPTIONS = [
     "an output is 'unspecified' when its payable is a bare address or carries amount 0 (create_tx docstring); 'insufficient funds raise an "
     "error' is read under the statement's condition 'when some outputs are left unspecified' (k >= 1): with k = 0 the fee argument does not "
@@ -50,6 +66,16 @@ ASSUMPTIONS = [
     "bare trailing point included), and what str() / format(.., 'f') print for the amount a satoshi_to_* converter returned; 'exact' is a "
     "statement about the value: the type of a converter's result is not judged",
     "the return value of distribute_from_split_pool is not judged (the statement speaks about the transaction)",
+    "a transaction handed to distribute_from_split_pool by its owner is 'built from spendables and payables' like one made by create_tx: "
+    "its outputs of amount 0 are the unspecified ones whatever their script (the statement and both docstrings make no exception for "
+    "data-carrier, empty or non-standard scripts), the recorded unspents are the spendables. An output stays unspecified until a call "
+    "RETURNS: a call that raises produced no transaction, so a retry on the same object (lower fee, more funds) is judged against the "
+    "same unspecified outputs. What the object looks like between the refusal and the retry is not judged",
+    "calls with a fee, a recorded amount, an output amount or a record of the wrong type (None, str, float, list, bytes) are workload: "
+    "refusing them is expected but not demanded; when the library takes one while outputs are unspecified the session ends unjudged. "
+    "An amount of 2**63 / 2**64 is an int like any other to the arithmetic of the statement: insufficient funds",
+    "create_tx reads the caller's spendables and payables containers and their entries (dicts, lists); it must leave them as they "
+    "were (compared by value before and after a returning call), so that the same objects build the transaction of the model again",
     "records that do not fit the inputs one to one, handed to the Tx constructor or appended to the serialised form, may be refused at "
     "that point (any exception; the unchanged library takes them): there is then no object whose fee could be read. The same for "
     "as_hex(include_unspents=True) on such an object",
@@ -96,9 +122,12 @@ def plan(tier, seed):
     if tier == "quick":
         return ([{"kind": "split_exhaustive"}, {"kind": "build_sweep"}] + [{"kind": "build", "n": 12000} for _ in range(5)] +
                 [{"kind": "validate", "n": 1900} for _ in range(4)] + [{"kind": "history", "n": 5000} for _ in range(2)] +
-                [{"kind": "convert_sweep"}] + [{"kind": "convert", "n": 90000} for _ in range(2)])
+                [{"kind": "convert_sweep"}] + [{"kind": "convert", "n": 90000} for _ in range(2)] +
+                [{"kind": "pool", "n": 6000} for _ in range(2)] + [{"kind": "longrun"}])       # (new shards last: shard numbers seed the rngs)
     return ([{"kind": "split_exhaustive"}, {"kind": "build_sweep"}] + [{"kind": "build", "n": 600000} for _ in range(16)] +
-            [{"kind": "validate", "n": 90000} for _ in range(12)] + [{"kind": "history", "n": 120000} for _ in range(8)] + [{"kind": "convert_sweep"}] + [{"kind": "convert", "n": 4500000} for _ in range(6)])
+            [{"kind": "validate", "n": 90000} for _ in range(12)] + [{"kind": "history", "n": 120000} for _ in range(8)] +
+            [{"kind": "convert_sweep"}] + [{"kind": "convert", "n": 4500000} for _ in range(6)] +
+            [{"kind": "pool", "n": 250000} for _ in range(8)] + [{"kind": "longrun"}])
 
 
 # ---------------------------------------------------------------------------------------------
@@ -150,6 +179,13 @@ def selftest(rec):
     assert model_build([10], [11, 0], 0) == ("error", None)
     assert model_build([3, 4], [2, 0, 1, 0], 1) == ("ok", [2, 2, 1, 1])
     assert model_build([3, 4], [20], 5) == ("ok", [20])
+    # a refused call leaves the caller's outputs unspecified: the retry is judged against the same amounts
+    assert model_build([10], [4, 0, 0, 0], 4) == ("error", None) and model_build([10], [4, 0, 0, 0], 0) == ("ok", [4, 2, 2, 2])
+    assert [_pool_rclass(r, 3) for r in (-1, 0, 1, 2, 3)] == ["neg", "zero", "lt_k", "lt_k", "ok"]
+    marks = _pool_refusals_marked({"producer": "ctor_set", "coins": [{"coin_value": 10}], "outs": [{"amount": 4}, {"amount": 0}, {"amount": 0}],
+                                   "steps": [{"op": "call", "fee": 5}, {"op": "bad", "how": "fee_none"}, {"op": "call", "fee": 4},
+                                             {"op": "call", "fee": 0}, {"op": "rezero", "at": [0]}, {"op": "call", "fee": 9}]})
+    assert marks == [True, True, False, False, False, True], marks
     # conversion oracle: 1 BTC = 10^8 satoshi, 1 mBTC = 10^5 satoshi (definition)
     assert Fraction(decimal.Decimal("20999999.99999999")) == Fraction(MAXV - 1, 10 ** 8)
     assert _dec_strings(123456789, 8)[0] == "1.23456789" and "1.5" in _dec_strings(150000000, 8) and "15" in _dec_strings(1500000, 5)
@@ -169,7 +205,7 @@ def selftest(rec):
     assert ref([0, 2], [r_(0, form="txout"), r_(1, form="txout"), r_(2, form="txout")]) == ("surplus", [(30, True)])   # by position only
     assert ref([1, 0], [r_(0), r_(1)]) == ("unjudged", [])
     assert ref([0, 1], [r_(0), None, r_(2)]) == ("unrecorded", [])
-    return {"split_uniqueness_bruteforce": n, "model_examples": 9, "history_reference_examples": 12}
+    return {"split_uniqueness_bruteforce": n, "model_examples": 11, "history_reference_examples": 12, "session_model_examples": 2}
 
 
 # ---------------------------------------------------------------------------------------------
@@ -306,12 +342,14 @@ def _observe_built(rec, case, tx, fields, exp, amounts, in_sum, fee, suffix=""):
     return good
 
 
-def _create_and_judge(name, net, rng, rec, case, spendables, fields, amounts, fee, kw=None, suffix=""):
-    """create_tx on the given (caller-owned) container of spendables against the model of `fields`; returns (tx or None, payables)"""
+def _create_and_judge(name, net, rng, rec, case, spendables, fields, amounts, fee, kw=None, suffix="", payables=None):
+    """create_tx on the given (caller-owned) container of spendables against the model of `fields`; returns (tx or None, payables).
+    payables: the caller's own list (written for `amounts`), else a fresh one is made"""
     addrs = _addresses(name, net)
     in_values = [f["coin_value"] for f in fields]
     verdict, exp = model_build(in_values, amounts, fee)
-    payables = _payables(addrs, amounts, rng)
+    if payables is None:
+        payables = _payables(addrs, amounts, rng)
     rec.ev("create_tx")
     st, tx = observe(lambda: net.tx_utils.create_tx(spendables, payables, fee, **(kw or {})))
     if verdict == "error":
@@ -1622,6 +1660,780 @@ def run_history(spec, rec, nets):
 
 
 # ---------------------------------------------------------------------------------------------
+# caller-owned transactions handed to distribute_from_split_pool: every kind of output script, every way a transaction
+# object comes into being, refused calls (insufficient funds in each remainder class, fee / record / amount of the wrong
+# type) interleaved with judged calls on the same object and on other objects of other networks.
+#
+# The model is the caller's view: an output is unspecified while the caller left it at 0 and no call RETURNED a value for it.
+# A call that raises produced no transaction: the caller's unspecified outputs are still unspecified, and the retry (lower
+# fee, more funds) is judged against the same model. What the object looks like between the refusal and the retry is not judged.
+
+_G1 = bytes.fromhex("0279be667ef9dcbbac55a06295ce870b07029bfcdb2dce28d959f2815b16f81798")
+_G2 = bytes.fromhex("02c6047f9441ed7d6d3045406e95c07cd85c778e4b8cef3ca7abac09b95c709ee5")
+_G1U = bytes.fromhex("0479be667ef9dcbbac55a06295ce870b07029bfcdb2dce28d959f2815b16f81798"
+                     "483ada7726a3c4655da4fbfc0e1108a8fd17b448a68554199c47d08ffb10d4b8")
+SCRIPT_KINDS = ["p2pkh", "p2sh", "p2pk", "p2pk_uncompressed", "p2pkh_wit", "p2sh_wit", "p2tr", "multisig", "address", "nulldata",
+                "nulldata_push", "nulldata_long", "op_return_bare", "op_return_garbage", "op_return_inside", "empty", "op_true",
+                "random", "long", "same_as_input"]
+_ORDINARY = ("op_true",)
+POOL_PRODUCERS = ["ctor_set", "ctor_kw", "from_bin", "from_hex_unspents", "parse_unspents", "from_db", "segwit", "dressed", "create_tx",
+                  "create_tx_signed"]
+BAD_CALLS = ["fee_none", "fee_str", "fee_float", "fee_list", "fee_bytes", "unspent_none", "unspent_value_none", "output_value_none",
+             "output_value_str"]
+_BAD_FEE = {"fee_none": None, "fee_str": "12", "fee_float": 1.5, "fee_list": [1], "fee_bytes": b"\x01"}
+_POOL_SCRIPTS = {}
+
+
+def _pool_scripts(name, net):
+    """kind -> scripts. Written by hand from the script templates; where the network's public contract API makes the kind, its
+    result is used as well (workload only: the scripts are not judged)"""
+    if name in _POOL_SCRIPTS:
+        return _POOL_SCRIPTS[name]
+    h = [hashlib.sha256(b"c13 pool script %d" % i).digest() for i in range(4)]
+    out = {"p2pkh": [b"\x76\xa9\x14" + h[0][:20] + b"\x88\xac"], "p2sh": [b"\xa9\x14" + h[1][:20] + b"\x87"],
+           "p2pk": [b"\x21" + _G1 + b"\xac"], "p2pk_uncompressed": [b"\x41" + _G1U + b"\xac"],
+           "p2pkh_wit": [b"\x00\x14" + h[2][:20]], "p2sh_wit": [b"\x00\x20" + h[3]], "p2tr": [b"\x51\x20" + h[0]],
+           "multisig": [b"\x51\x21" + _G1 + b"\x21" + _G2 + b"\x52\xae"], "address": [],
+           "nulldata": [b"\x6a" + b"c13"], "nulldata_push": [b"\x6a\x03c13", b"\x6a\x00"],
+           "nulldata_long": [b"\x6a\x4c\x50" + (h[0] * 3)[:80]], "op_return_bare": [b"\x6a"],
+           "op_return_garbage": [b"\x6a\x4c", b"\x6a\xff\x00", b"\x6a\x6a\x6a"], "op_return_inside": [b"\x51\x6a", b"\x00\x6a\x01\x02"],
+           "empty": [b""], "op_true": [b"\x51", b"\x52", b"\x53"], "long": [b"\x51" * 600, b"\x6a\x4d\x10\x27" + b"\x00" * 10000]}
+    c = net.contract
+    for kind, f, args in (("p2pkh", "for_p2pkh", (h[1][:20],)), ("p2sh", "for_p2sh", (h[2][:20],)), ("p2pk", "for_p2pk", (_G2,)),
+                          ("p2pkh_wit", "for_p2pkh_wit", (h[3][:20],)), ("p2sh_wit", "for_p2sh_wit", (h[0],)),
+                          ("p2tr", "for_p2tr", (h[1],)), ("multisig", "for_multisig", (2, [_G1, _G2, _G1])),
+                          ("nulldata", "for_nulldata", (b"c13 value conservation",)), ("nulldata_push", "for_nulldata_push", (b"c13 data",)),
+                          ("op_return_bare", "for_nulldata", (b"",))):
+        st, s = observe(lambda: getattr(c, f)(*args))
+        if st == "ok" and isinstance(s, bytes) and s not in out[kind]:
+            out[kind].append(s)
+    for a in _addresses(name, net):
+        st, s = observe(c.for_address, a)
+        if st == "ok" and isinstance(s, bytes) and s:
+            out["address"].append(s)
+    if not out["address"]:
+        out["address"] = list(out["p2pkh"])
+    _POOL_SCRIPTS[name] = out
+    return out
+
+
+def _pool_pick_script(rng, scripts, kind, coins):
+    if kind == "random":
+        return G.rbytes(rng, rng.choice([1, 2, 5, 25, 34, 80]))
+    if kind == "same_as_input":
+        return coins[0]["script"]
+    return rng.choice(scripts[kind])
+
+
+def _pool_coin(rng, value, k, scripts):
+    f = _mk_spendable_fields(rng, value, k)
+    if rng.random() < 0.4:
+        f["script"] = rng.choice(scripts[rng.choice(["p2pkh", "p2sh", "p2pkh_wit", "nulldata", "empty", "op_true"])])
+    return {"coin_value": f["coin_value"], "script": f["script"], "tx_hash": f["tx_hash"], "tx_out_index": f["tx_out_index"]}
+
+
+def _pool_rclass(rem, k):
+    return "neg" if rem < 0 else "zero" if rem == 0 else "lt_k" if rem < k else "ok"
+
+
+def _gen_pool(name, net, rng, i):
+    """one session: how the transaction object comes into being, its outputs (amount 0 = unspecified, script kind) and the steps the
+    caller takes with it. Generated against the model alone; every step is written out (replayable as is)."""
+    scripts = _pool_scripts(name, net)
+    producer = "create_tx_signed" if i % 45 == 43 else POOL_PRODUCERS[i % 9]
+    case = {"kind": "pool", "net": name, "producer": producer, "unspent_form": rng.choice(["spendable", "spendable", "txout"]),
+            "version": rng.choice([1, 1, 2]), "lock_time": rng.choice([0, 0, 1, 500000000]), "state_seed": rng.getrandbits(24),
+            "dress": rng.choice(["scripts", "witness", "both", "mixed"])}
+    n_in = rng.choice([1, 1, 2, 2, 3, 5])
+    if producer == "from_db":
+        sources = [_source_tx(rng, rng.choice([1, 2, 3]), tag) for tag in range(n_in)]
+        pool = _hist_coins(sources)
+        rng.shuffle(pool)
+        coins = pool[:n_in]
+        case["sources"] = sources
+    elif producer == "create_tx_signed":
+        ks = _key_material(name, net)["scripts"]
+        coins = [dict(_pool_coin(rng, rng.choice([546, 10 ** 5, 10 ** 8, rng.randrange(1, 10 ** 9)]), j, scripts), script=rng.choice(ks))
+                 for j in range(min(n_in, 2))]
+    else:
+        coins = [_pool_coin(rng, rng.choice([1, 1, 2, 7, 546, 10 ** 8 - 1, 10 ** 8, MAXV, rng.randrange(1, 1000), rng.randrange(1, 10 ** 9),
+                                             rng.randrange(1, MAXV + 1)]), j, scripts) for j in range(n_in)]
+    big = i % 400 == 7 and not producer.startswith("create_tx")
+    if big and producer != "from_db":
+        coins[0]["coin_value"] = rng.choice([10 ** 5, 10 ** 8, MAXV])
+    case["coins"] = coins
+    in_sum = sum(c["coin_value"] for c in coins)
+    big = big and in_sum >= 1000
+    k0 = [252, 253, 254][(i // 400) % 3] if big else rng.choice([1, 1, 2, 2, 3, 3, 4, 5, 0])
+    n_fixed = rng.choice([0, 0, 1, 1, 2, 3]) if k0 else rng.choice([1, 2])
+    fixed, budget = [], in_sum // 2
+    for _ in range(n_fixed):
+        v = rng.choice([1, 546, rng.randrange(1, max(2, budget // 2 + 1)), rng.randrange(1, max(2, min(budget, 10 ** 6) + 1))])
+        fixed.append(v)
+        budget = max(0, budget - v)
+    amounts = fixed + [0] * k0
+    rng.shuffle(amounts)
+    focus = SCRIPT_KINDS[(i // 9) % len(SCRIPT_KINDS)]
+    outs = []
+    if producer.startswith("create_tx"):
+        # create_tx pays to addresses; it must itself succeed: at least one satoshi per unspecified output is left
+        addrs = _addresses(name, net)
+        while amounts and in_sum - sum(amounts) < amounts.count(0):
+            amounts.remove(max(amounts)) if max(amounts) > 0 else amounts.pop()
+        if not amounts:
+            amounts = [0]
+        left = in_sum - sum(amounts)
+        k = amounts.count(0)
+        case["fee0"] = (left - min(left, rng.choice([k, k + 1, left, left, rng.randrange(k, left + 1)]))) if k else rng.choice([0, 7, max(0, left)])
+        for j, a in enumerate(amounts):
+            outs.append({"amount": a, "address": addrs[(j * 5 + i) % len(addrs)], "skind": "address"})
+    else:
+        dup = rng.random() < 0.2
+        for j, a in enumerate(amounts):
+            kind = focus if (a == 0 and not any(o["amount"] == 0 for o in outs)) else rng.choice(SCRIPT_KINDS)
+            if big:
+                kind = focus if j == 100 else "op_true"
+            if dup and outs and rng.random() < 0.6:
+                outs.append(dict(outs[-1], amount=a))
+            else:
+                outs.append({"amount": a, "script": _pool_pick_script(rng, scripts, kind, coins), "skind": kind})
+    case["outs"] = outs
+    # the steps, against the model
+    if producer.startswith("create_tx"):
+        cur = model_build([in_sum], amounts, case["fee0"])[1]
+    else:
+        cur = list(amounts)
+    steps = []
+    fresh = [0]
+
+    def new_output(a):
+        kind = rng.choice([focus, focus, rng.choice(SCRIPT_KINDS)])
+        return {"op": "add_output", "amount": a, "script": _pool_pick_script(rng, scripts, kind, coins), "skind": kind}
+
+    def new_funds(v):
+        fresh[0] += 1
+        return {"op": "add_funds", "coin": _pool_coin(rng, v, 50 + fresh[0], scripts)}
+
+    def feasible_call():
+        k, left = cur.count(0), in_sum - sum(cur)
+        if k == 0:
+            return {"op": "call", "fee": rng.choice([0, 1, 10 ** 9])}
+        if left < k:
+            return None
+        rem = rng.choice([k, k, k + 1, 2 * k - 1, 2 * k, left, left, rng.randrange(k, left + 1)])
+        return {"op": "call", "fee": left - min(rem, left)}
+
+    def do_call(fee):
+        steps.append({"op": "call", "fee": fee})
+        verdict, exp = model_build([in_sum], cur, fee)
+        if verdict == "ok":
+            cur[:] = exp
+
+    if big:
+        # 252 / 253 / 254 unspecified outputs: refused one satoshi short of one each, then exactly one each, then a real split
+        left = in_sum - sum(cur)
+        do_call(left - (k0 - 1))
+        do_call(left - k0)
+        steps.append({"op": "rezero", "at": [j for j, a in enumerate(amounts) if a == 0]})
+        for j, a in enumerate(amounts):
+            cur[j] = a
+        do_call(rng.choice([0, 1, 1000]))
+    for _ in range(rng.choice([1, 2, 2, 3, 3, 4, 5]) if not big else 0):
+        k, left = cur.count(0), in_sum - sum(cur)
+        pick = rng.choice(["refuse_retry"] * 6 + ["call"] * 3 + ["bad"] * 4 + ["rezero"] * 3 + ["add_output"] * 3 + ["add_funds"] + ["huge"])
+        if k == 0 and pick in ("refuse_retry", "huge") and rng.random() < 0.8:
+            pick = rng.choice(["rezero", "add_output"])
+        if pick == "refuse_retry" and k:
+            klass = rng.choice(["lt_k"] * 5 + ["zero"] * 2 + ["neg"] * 2)
+            if klass == "lt_k" and (k < 2 or left < 1):
+                klass = "zero"
+            if klass == "zero" and left < 0:
+                klass = "neg"
+            rem = rng.randrange(1, min(k, left + 1)) if klass == "lt_k" else 0 if klass == "zero" else -rng.choice([1, 2, 1000])
+            fee = max(0, left - rem)
+            for _rep in range(rng.choice([1, 1, 2])):
+                do_call(fee)
+            if rng.random() < 0.25:
+                steps.append({"op": "bad", "how": rng.choice(BAD_CALLS), "i": rng.randrange(8), "fee": fee})
+            r = rng.random()
+            if r < 0.55:
+                st = feasible_call()
+                if st:
+                    do_call(st["fee"])
+            elif r < 0.85:
+                v = max(1, k - (left - fee)) + rng.choice([0, 0, 1, k, 10 ** 6])
+                steps.append(new_funds(v))
+                in_sum += v
+                do_call(fee)
+        elif pick == "call":
+            st = feasible_call()
+            if st:
+                do_call(st["fee"])
+        elif pick == "bad":
+            steps.append({"op": "bad", "how": rng.choice(BAD_CALLS), "i": rng.randrange(8), "fee": max(0, left - k) if rng.random() < 0.7 else 0})
+        elif pick == "rezero":
+            nz = [j for j, a in enumerate(cur) if a]
+            if nz:
+                at = sorted(rng.sample(nz, rng.choice([1, 1, 2, len(nz)]) if len(nz) > 1 else 1)) if len(nz) < 50 else nz[:rng.choice([1, 3, 200])]
+                steps.append({"op": "rezero", "at": at})
+                for j in at:
+                    cur[j] = 0
+        elif pick == "add_output":
+            a = rng.choice([0, 0, 0, 1, 546])
+            steps.append(new_output(a))
+            cur.append(a)
+        elif pick == "add_funds":
+            v = rng.choice([1, 546, 10 ** 8, rng.randrange(1, 10 ** 6)])
+            steps.append(new_funds(v))
+            in_sum += v
+        elif pick == "huge" and k:
+            # an amount that fits no wire field: by the arithmetic of the statement simply insufficient funds
+            nz = [j for j, a in enumerate(cur) if a]
+            if nz:
+                j = rng.choice(nz)
+                steps += [{"op": "set_value", "j": j, "v": rng.choice([2 ** 64, 2 ** 64 - 1, 2 ** 63])}, {"op": "call", "fee": 0},
+                          {"op": "set_value", "j": j, "v": cur[j]}]
+    if not any(s["op"] == "call" for s in steps):
+        st = feasible_call()
+        if st:
+            do_call(st["fee"])
+    case["steps"] = steps
+    return case
+
+
+def _pool_build(name, net, case):
+    import io
+    Tx = net.tx
+    S = Tx.Spendable
+    coins, p = case["coins"], case["producer"]
+
+    def objs(cs, form=None):
+        if (form or case["unspent_form"]) == "txout":
+            return [Tx.TxOut(c["coin_value"], c["script"]) for c in cs]
+        return [S(c["coin_value"], c["script"], c["tx_hash"], c["tx_out_index"]) for c in cs]
+    if p.startswith("create_tx"):
+        payables = [(o["address"], o["amount"]) if o["amount"] else o["address"] for o in case["outs"]]
+        tx = net.tx_utils.create_tx(objs(coins, "spendable"), payables, case["fee0"], lock_time=case["lock_time"], version=case["version"])
+        if p == "create_tx_signed":
+            observe(net.tx_utils.sign_tx, tx, _key_material(name, net)["wifs"])
+        return tx
+    txs_in = [Tx.TxIn(c["tx_hash"], c["tx_out_index"]) for c in coins]
+    txs_out = [Tx.TxOut(o["amount"], o["script"]) for o in case["outs"]]
+    if p == "ctor_kw":
+        return Tx(case["version"], txs_in, txs_out, case["lock_time"], unspents=objs(coins))
+    base = Tx(case["version"], txs_in, txs_out, case["lock_time"])
+    if p == "ctor_set":
+        base.set_unspents(objs(coins))
+        return base
+    if p == "dressed":
+        base.set_unspents(objs(coins))
+        _dress(name, net, base, {"state": case["dress"], "state_seed": case["state_seed"]}, len(coins))
+        return base
+    if p == "from_hex_unspents":
+        base.set_unspents(objs(coins))
+        return Tx.from_hex(base.as_hex(include_unspents=True))
+    if p == "segwit":
+        _dress(name, net, base, {"state": "witness", "state_seed": case["state_seed"]}, len(coins))
+    tx = Tx.from_bin(base.as_bin())
+    if p == "parse_unspents":
+        tx.parse_unspents(io.BytesIO(b"".join(R.ser_out({"value": c["coin_value"], "script": c["script"]}) for c in coins)))
+    elif p == "from_db":
+        tx.unspents_from_db({R.txid_bytes(s): G.to_pycoin(Tx, s) for s in case["sources"]})
+    else:
+        tx.set_unspents(objs(coins))
+    return tx
+
+
+def _pool_new_unspent(net, case, c):
+    Tx = net.tx
+    if case["unspent_form"] == "txout" or case["producer"] in ("from_hex_unspents", "parse_unspents", "from_db"):
+        return Tx.TxOut(c["coin_value"], c["script"])
+    return Tx.Spendable(c["coin_value"], c["script"], c["tx_hash"], c["tx_out_index"])
+
+
+def _exec_pool(name, net, case, rec, out):
+    """generator: carries out one session, yielding after every step (so that sessions on other objects / networks can be
+    interleaved). Appends (mechanism, step index, observed, expected) to out and stops at the first disagreement."""
+    Tx = net.tx
+    dist = net.tx_utils.distribute_from_split_pool
+    p = case["producer"]
+    rec.ev("pool.producer." + p)
+    st, tx = observe(_pool_build, name, net, case)
+    if st != "ok":
+        if p in ("segwit", "dressed") and not getattr(Tx, "ALLOW_SEGWIT", True):
+            rec.ev("pool.producer_unavailable")
+            return
+        out.append(("inconclusive:pool.setup_failed." + p, -1, tx, "transaction"))
+        return
+    in_sum = sum(c["coin_value"] for c in case["coins"])
+    amounts = [o["amount"] for o in case["outs"]]
+    skinds = [o["skind"] for o in case["outs"]]
+    if p.startswith("create_tx"):
+        verdict, cur = model_build([in_sum], amounts, case["fee0"])
+        rec.ev("create_tx")
+        s0, got = observe(lambda: [o.coin_value for o in tx.txs_out])
+        if verdict != "ok":
+            out.append(("inconclusive:pool.generator_infeasible_create_tx", -1, None, None))
+            return
+        if s0 != "ok" or got != cur:
+            out.append(("build.outputs_mismatch.pool_entry", -1, got, cur))      # (create_tx itself is the subject of the build shards)
+            return
+    else:
+        cur = list(amounts)
+    refused_since = set()
+    yield
+    for at, step in enumerate(case["steps"]):
+        op = step["op"]
+        if op == "rezero":
+            for j in step["at"]:
+                tx.txs_out[j].coin_value = 0
+                cur[j] = 0
+        elif op == "set_value":
+            tx.txs_out[step["j"]].coin_value = step["v"]
+            cur[step["j"]] = step["v"]
+        elif op == "add_output":
+            tx.txs_out.append(Tx.TxOut(step["amount"], step["script"]))
+            cur.append(step["amount"])
+            skinds.append(step["skind"])
+        elif op == "add_funds":
+            c = step["coin"]
+            tx.txs_in.append(Tx.TxIn(c["tx_hash"], c["tx_out_index"]))
+            tx.unspents.append(_pool_new_unspent(net, case, c))
+            in_sum += c["coin_value"]
+        elif op == "bad":
+            how = step["how"]
+            k = cur.count(0)
+            rec.ev("distribute_from_split_pool")
+            if how in _BAD_FEE:
+                s, r = observe(dist, tx, _BAD_FEE[how])
+            else:
+                if how.startswith("unspent"):
+                    lst, idx = tx.unspents, step["i"] % len(tx.unspents)
+                    holder = lst[idx]
+                else:
+                    idx = step["i"] % len(tx.txs_out)
+                    holder = tx.txs_out[idx]
+                if how == "unspent_none":
+                    tx.unspents[idx] = None
+                    s, r = observe(dist, tx, step["fee"])
+                    tx.unspents[idx] = holder
+                else:
+                    keep = holder.coin_value
+                    holder.coin_value = "12" if how == "output_value_str" else None
+                    s, r = observe(dist, tx, step["fee"])
+                    holder.coin_value = keep            # (the caller repairs its own edit)
+            rec.ev("pool.bad_call_tried." + how)
+            if s != "ok":
+                rec.ev("pool.bad_call_refused." + how)
+                if k:
+                    refused_since.add("bad_call")
+            elif k:
+                # nothing in the statement makes the library refuse it; what it then did with the outputs is not judged
+                rec.ev("pool.odd_call_accepted")
+                return
+            else:
+                rec.ev("pool.bad_call_nothing_to_do")
+                s2, got = observe(lambda: [o.coin_value for o in tx.txs_out])
+                if s2 != "ok" or got != cur:
+                    out.append(("pool.fixed_amount_changed", at, got, list(cur)))
+                    return
+        elif op == "call":
+            fee = step["fee"]
+            k = cur.count(0)
+            verdict, exp = model_build([in_sum], cur, fee)
+            rec.ev("distribute_from_split_pool")
+            s, r = observe(dist, tx, fee)
+            if verdict == "error":
+                rec.ev("expected_error")
+                rclass = _pool_rclass(in_sum - sum(cur) - fee, k)
+                if s == "ok":
+                    out.append(("pool.insufficient_funds_not_rejected." + rclass, at, observe(lambda: [o.coin_value for o in tx.txs_out])[1], "error"))
+                    return
+                rec.ev("pool.refused." + rclass)
+                if max(cur) >= 2 ** 63:
+                    rec.ev("pool.refused.amount_beyond_wire_field")
+                refused_since.add(rclass)
+            else:
+                rec.ev("expected_tx")
+                if s != "ok":
+                    out.append(("pool.rejects_sufficient_funds", at, r, exp))
+                    return
+                s2, got = observe(lambda: [o.coin_value for o in tx.txs_out])
+                if s2 != "ok":
+                    out.append(("pool.outputs_unreadable", at, got, exp))
+                    return
+                if k:
+                    for j, a in enumerate(cur):
+                        if a == 0:
+                            rec.ev("pool.unspecified_script." + skinds[j])
+                    if k >= 252:
+                        rec.ev("pool.unspecified_count_at_compact_size_boundary")
+                    for c in refused_since:
+                        rec.ev("pool.retry_after_refusal." + c)
+                else:
+                    rec.ev("pool.call.no_unspecified")
+                refused_since = set()
+                viol = []
+                if not _judge_outputs(_Collect(viol), None, got, exp, cur, in_sum, fee, "pool"):
+                    out.append((viol[0][0], at, got, exp))
+                    return
+                rec.ev("Tx.fee")
+                rec.ev("Tx.total_in")
+                rec.ev("Tx.total_out")
+                s3, readings = observe(lambda: (tx.total_in(), tx.total_out(), tx.fee()))
+                want = (in_sum, sum(exp), in_sum - sum(exp))
+                if s3 != "ok" or tuple(readings) != want:
+                    which = "tx.total_in.mismatch" if s3 == "ok" and readings[0] != want[0] else \
+                        "tx.total_out.mismatch" if s3 == "ok" and readings[1] != want[1] else "tx.fee.not_in_minus_out"
+                    out.append(("pool." + which, at, readings, want))
+                    return
+                cur = list(exp)
+        else:
+            raise ValueError("unknown pool step %r" % op)
+        yield
+
+
+class _Collect(object):
+    def __init__(self, lst):
+        self.lst = lst
+
+    def violation(self, mech, case, observed=None, expected=None):
+        self.lst.append((mech, observed, expected))
+
+
+def _pool_alone(name, net, case):
+    out = []
+    for _ in _exec_pool(name, net, case, _NoRec(), out):
+        pass
+    return out
+
+
+def _pool_refusals_marked(case):
+    """per step: is it a call the model expects to be refused, or a call with an argument of the wrong type"""
+    in_sum = sum(c["coin_value"] for c in case["coins"])
+    amounts = [o["amount"] for o in case["outs"]]
+    cur = model_build([in_sum], amounts, case["fee0"])[1] if case["producer"].startswith("create_tx") else list(amounts)
+    marks = []
+    for step in case["steps"]:
+        op, mark = step["op"], False
+        if op == "rezero":
+            for j in step["at"]:
+                cur[j] = 0
+        elif op == "set_value":
+            cur[step["j"]] = step["v"]
+        elif op == "add_output":
+            cur.append(step["amount"])
+        elif op == "add_funds":
+            in_sum += step["coin"]["coin_value"]
+        elif op == "bad":
+            mark = True
+        elif op == "call":
+            verdict, exp = model_build([in_sum], cur, step["fee"])
+            mark = verdict == "error"
+            cur = cur if mark else exp
+        marks.append(mark)
+    return marks
+
+
+def _pool_report(name, net, rec, case, found):
+    """name the cause: does the disagreement need the refused calls before it, the kinds of output script, the other sessions?"""
+    mech, at, obs, exp = found
+    if mech.startswith("inconclusive:"):
+        rec.ev(mech)
+        rec.note("%s: %r" % (mech, obs))
+        return
+    if at < 0:
+        rec.violation(mech, case, obs, exp)
+        return
+    alone = _pool_alone(name, net, case)
+    if not any(v[0] == mech for v in alone):
+        rec.violation(mech + ".only_between_calls_on_other_objects", case, obs, exp)
+        return
+    marks = _pool_refusals_marked(case)
+    if any(marks[:at]):
+        plain = dict(case, steps=[s for s, m in zip(case["steps"], marks) if not m])
+        if not any(v[0] == mech for v in _pool_alone(name, net, plain)):
+            rec.violation(mech + ".after_refused_call", case, obs, exp)
+            return
+        case = plain
+    if not case["producer"].startswith("create_tx") or any(s["op"] == "add_output" for s in case["steps"]):
+        def strip(o):
+            return dict(o, script=b"\x51", skind="op_true") if "script" in o else o
+        plain = dict(case, outs=[strip(o) for o in case["outs"]], steps=[strip(s) for s in case["steps"]])
+        if not any(v[0] == mech for v in _pool_alone(name, net, plain)):
+            rec.violation(mech + ".by_output_script", case, obs, exp)
+            return
+        case = plain
+    rec.violation(mech, case, obs, exp)
+
+
+def _pool_case_key(case):
+    return ("pool", case["producer"], case["unspent_form"], tuple(o["skind"] for o in case["outs"] if o["amount"] == 0)[:4],
+            len(case["coins"]), len(case["outs"]), tuple((s["op"], s.get("how"), s.get("skind")) for s in case["steps"]))
+
+
+# class C: the caller's own argument objects. create_tx reads its arguments; it must leave them as they are, and a second call
+# with the very same objects (and another fee) must build the transaction of the model again. In between, calls the library
+# refuses part-way through (an entry it cannot read after entries it could, an amount / fee of the wrong type).
+REFUSED_BUILDS = ["spendable_garbage_text", "spendable_dict_missing_key", "spendable_none", "payable_amount_none", "payable_amount_str",
+                  "payable_triple", "fee_none", "fee_str", "insufficient"]
+
+
+def _arg_snapshot(spendables, payables):
+    def sp(e):
+        if isinstance(e, dict):
+            return ("dict", sorted(e.items()))
+        if isinstance(e, str):
+            return ("text", e)
+        return ("object", e.coin_value, bytes(e.script), bytes(e.tx_hash), e.tx_out_index)
+    return ([sp(e) for e in spendables], [(type(p).__name__, p if isinstance(p, str) else tuple(p)) for p in payables], type(spendables).__name__)
+
+
+def _check_reuse(name, net, rng, rec, i):
+    S = net.tx.Spendable
+    addrs = _addresses(name, net)
+    n_in = rng.choice([1, 2, 2, 3, 4])
+    fields = [_mk_spendable_fields(rng, rng.choice([1, 2, 546, 10 ** 8, rng.randrange(1, 10 ** 6), rng.randrange(1, MAXV + 1)]), j) for j in range(n_in)]
+    form = ("object", "text", "dict", "mixed")[i % 4]
+    forms = [form if form != "mixed" else ("object", "text", "dict")[j % 3] for j in range(n_in)]
+    in_sum = sum(f["coin_value"] for f in fields)
+    k = rng.choice([1, 1, 2, 3, 4])
+    fixed = [rng.choice([1, 546, rng.randrange(1, max(2, in_sum // 4))]) for _ in range(rng.choice([0, 1, 2]))] if in_sum > 20 else []
+    amounts = fixed + [0] * k
+    rng.shuffle(amounts)
+    left = in_sum - sum(fixed)
+    rems = [r for r in (k, k + 1, 2 * k + 1, left, left // 2, k - 1, 0) if 0 <= r <= left]
+    if not rems:
+        return
+    fee1, fee2 = left - rng.choice(rems), left - rng.choice(rems)
+    refused = REFUSED_BUILDS[(i // 4) % len(REFUSED_BUILDS)] if i % 3 else None
+    case = {"kind": "reuse", "net": name, "fields": fields, "forms": forms, "amounts": amounts, "fee1": fee1, "fee2": fee2,
+            "styles": [rng.choice(["bare", "zero_tuple", "zero_list"]) if a == 0 else rng.choice(["tuple", "list"]) for a in amounts],
+            "refused_first": refused}
+    rec.case(("reuse", form, n_in, len(amounts), k, _pool_rclass(left - fee1, k), _pool_rclass(left - fee2, k), refused, tuple(case["styles"])),
+             nontrivial=True)
+    _run_reuse(name, net, rec, case)
+
+
+def _run_reuse(name, net, rec, case):
+    S = net.tx.Spendable
+    addrs = _addresses(name, net)
+    fields, amounts = case["fields"], case["amounts"]
+    spendables = [_as_form(S, f, fm) for f, fm in zip(fields, case["forms"])]
+    payables = []
+    for j, (a, style) in enumerate(zip(amounts, case["styles"])):
+        addr = addrs[(j * 7) % len(addrs)]
+        payables.append(addr if style == "bare" else (addr, a) if style in ("zero_tuple", "tuple") else [addr, a])
+    before = _arg_snapshot(spendables, payables)
+    how = case.get("refused_first")
+    if how:
+        # a call the library cannot complete, on the caller's own containers; the caller then takes its bad entry out again
+        fee = case["fee1"]
+        if how.startswith("spendable"):
+            bad = {"spendable_garbage_text": "no/spendable/at/all", "spendable_dict_missing_key": {"coin_value": 5}, "spendable_none": None}[how]
+            spendables.append(bad)
+        elif how.startswith("payable"):
+            payables.append({"payable_amount_none": (addrs[0], None), "payable_amount_str": [addrs[0], "5"],
+                             "payable_triple": (addrs[0], 5, 5)}[how])
+        elif how == "insufficient":
+            fee = sum(f["coin_value"] for f in fields) + 1
+        else:
+            fee = None if how == "fee_none" else "12"
+        rec.ev("create_tx")
+        st, r = observe(net.tx_utils.create_tx, spendables, payables, fee)
+        if how.startswith("spendable"):
+            spendables.pop()
+        elif how.startswith("payable"):
+            payables.pop()
+        if st == "ok":
+            if how == "insufficient":
+                rec.violation("build.insufficient_funds_not_rejected", case, observe(lambda: [o.coin_value for o in r.txs_out])[1], "error")
+                return
+            rec.ev("reuse.odd_build_accepted")           # nothing in the statement makes the library refuse it
+        else:
+            rec.ev("reuse.refused_build." + how)
+        rec.ev("reuse.bad_build_tried." + how)
+    suffix = "" if not how else ".after_refused_build" if st != "ok" else ".after_odd_build"
+    tx1, _ = _create_and_judge(name, net, None, rec, case, spendables, fields, amounts, case["fee1"], None, suffix, payables=payables)
+    after = _arg_snapshot(spendables, payables)
+    rec.ev("reuse.arguments_compared")
+    if after != before:
+        which = "spendables" if after[0] != before[0] or after[2] != before[2] else "payables"
+        rec.violation("build.caller_%s_modified" % which + suffix, case, after, before)
+        return
+    rec.ev("second_build")
+    rec.ev("reuse.second_build_same_arguments")
+    _create_and_judge(name, net, None, rec, case, spendables, fields, amounts, case["fee2"], None, ".reused_arguments", payables=payables)
+    if tx1 is not None:
+        exp = model_build([f["coin_value"] for f in fields], amounts, case["fee1"])[1]
+        _observe_built(rec, case, tx1, fields, exp, amounts, sum(f["coin_value"] for f in fields), case["fee1"], ".after_second_build")
+    if _arg_snapshot(spendables, payables) != before:
+        rec.violation("build.caller_arguments_modified.reused_arguments", case, _arg_snapshot(spendables, payables), before)
+
+
+def run_pool(spec, rec, nets):
+    rng = shard_rng(spec["seed"], PROPERTY, spec["tier"], spec["shard"])
+    names = list(nets)
+    live = []               # sessions in progress, on different networks: their steps are interleaved
+
+    def advance(entry):
+        name, case, gen, out = entry
+        try:
+            next(gen)
+            return True
+        except StopIteration:
+            if out:
+                _pool_report(name, nets[name], rec, case, out[0])
+            return False
+    for i in range(spec["n"]):
+        name = names[i % len(names)]
+        if i % 5 == 4:
+            _check_reuse(name, nets[name], rng, rec, i // 5)
+            continue
+        case = _gen_pool(name, nets[name], rng, i)
+        rec.case(_pool_case_key(case), nontrivial=True)
+        out = []
+        live.append((name, case, _exec_pool(name, nets[name], case, rec, out), out))
+        if i == 3:
+            rec.sample({"op": "distribute_from_split_pool session", "case": {k: v for k, v in case.items() if k != "sources"}})
+        while len(live) >= 3:
+            j = rng.randrange(len(live))
+            if not advance(live[j]):
+                live.pop(j)
+    while live:
+        j = rng.randrange(len(live))
+        if not advance(live[j]):
+            live.pop(j)
+    rec.require("distribute_from_split_pool", "create_tx", "expected_error", "expected_tx", "Tx.fee", "Tx.total_in", "Tx.total_out",
+                "pool.call.no_unspecified", "pool.unspecified_count_at_compact_size_boundary", "pool.refused.amount_beyond_wire_field",
+                *["pool.producer." + p for p in POOL_PRODUCERS] + ["pool.unspecified_script." + k for k in SCRIPT_KINDS] +
+                 ["pool.refused." + c for c in ("lt_k", "zero", "neg")] +
+                 ["pool.retry_after_refusal." + c for c in ("lt_k", "zero", "neg", "bad_call")] +
+                 ["pool.bad_call_tried." + h for h in BAD_CALLS])
+    rec.require("reuse.arguments_compared", "reuse.second_build_same_arguments", "second_build", "reuse.refused_build.insufficient",
+                *["reuse.bad_build_tried." + h for h in REFUSED_BUILDS])
+
+
+# ---------------------------------------------------------------------------------------------
+# class B: more than 2**16 operations on ONE object / in ONE process, each judged by running arithmetic
+
+def run_longrun(spec, rec, nets, only=None, upto=None, ab=None):
+    name = "BTC"
+    net = nets[name]
+    Tx = net.tx
+    n_ops = upto or ((1 << 16) + 100 if spec["tier"] == "quick" else (1 << 17) + 100)
+    goal = (1 << 16) + 100
+    rng = shard_rng(spec["seed"], PROPERTY, "longrun", 0)
+    a, b = ab or (rng.randrange(1, 1 << 20) | 1, rng.randrange(1 << 20))
+    dist = net.tx_utils.distribute_from_split_pool
+    def nth(i):
+        return ".after_over_2_16_calls" if i >= 65535 else ".after_many_calls" if i >= 256 else ""
+    # 1. one transaction object: the caller leaves its three change outputs unspecified again and asks for another fee
+    if only in (None, "one_object_split"):
+        coins = [{"coin_value": 10 ** 6 + 1, "script": b"\x51", "tx_hash": b"\x01" * 32, "tx_out_index": 0},
+                 {"coin_value": 70001, "script": b"\x52", "tx_hash": b"\x02" * 32, "tx_out_index": 1}]
+        in_sum, fixed = sum(c["coin_value"] for c in coins), 5000
+        tx = Tx(1, [Tx.TxIn(c["tx_hash"], c["tx_out_index"]) for c in coins], [Tx.TxOut(0, b"\x51"), Tx.TxOut(fixed, b"\x52"),
+                                                                                 Tx.TxOut(0, b"\x6a\x01\x00"), Tx.TxOut(0, b"")])
+        tx.set_unspents([Tx.Spendable(c["coin_value"], c["script"], c["tx_hash"], c["tx_out_index"]) for c in coins])
+        outs = tx.txs_out
+        left = in_sum - fixed
+        for i in range(n_ops):
+            case = {"kind": "longrun", "phase": "one_object_split", "i": i, "ab": [a, b]}
+            x = (a * i + b) % 9973
+            refuse = i % 61 == 60
+            rem = (1 + i % 2) if refuse else 3 + x
+            fee = left - rem
+            outs[0].coin_value = outs[2].coin_value = outs[3].coin_value = 0
+            rec.ev("distribute_from_split_pool")
+            st, r = observe(dist, tx, fee)
+            if refuse:
+                if st == "ok":
+                    rec.violation("longrun.insufficient_funds_not_rejected", case, [o.coin_value for o in outs], "error")
+                    return
+                rec.ev("longrun.refused_then_retried")
+                fee = left - 3 - x
+                st, r = observe(dist, tx, fee)
+                rem = 3 + x
+            q, m = divmod(rem, 3)
+            exp = [q + (m > 0), fixed, q + (m > 1), q]
+            got = [o.coin_value for o in outs] if st == "ok" else r
+            if got != exp:
+                viol = []
+                if st != "ok":
+                    rec.violation("longrun.rejects_sufficient_funds" + nth(i), case, r, exp)
+                else:
+                    _judge_outputs(_Collect(viol), None, got, exp, [0, fixed, 0, 0], in_sum, fee, "longrun")
+                    rec.violation(viol[0][0] + nth(i), case, got, exp)
+                return
+            if i % 4 == 0 or i > 65000:
+                rec.ev("Tx.fee")
+                st, f = observe(tx.fee)
+                if st != "ok" or f != fee:
+                    rec.violation("longrun.tx.fee.not_in_minus_out" + nth(i), case, f, fee)
+                    return
+                st, t = observe(lambda: (tx.total_in(), tx.total_out()))
+                if st != "ok" or t != (in_sum, in_sum - fee):
+                    rec.violation("longrun.tx.totals.mismatch" + nth(i), case, t, (in_sum, in_sum - fee))
+                    return
+        rec.case(("longrun", "one_object_split", n_ops), nontrivial=True)
+        if n_ops >= goal:
+            rec.ev("longrun.one_object_split.over_2_16")
+    # 2. one process: create_tx from the same caller-owned arguments
+    if only in (None, "one_process_create_tx"):
+        addrs = _addresses(name, net)
+        sp = [Tx.Spendable(123456789, b"\x51", b"\x03" * 32, 0), Tx.Spendable(1000, b"\x52", b"\x04" * 32, 3)]
+        in_sum = 123457789
+        payables = [addrs[0], (addrs[1], 777), addrs[2]]
+        for i in range(n_ops):
+            case = {"kind": "longrun", "phase": "one_process_create_tx", "i": i, "ab": [a, b]}
+            x = (a * i + b) % 99991
+            fee = in_sum - 777 - 2 - x
+            rec.ev("create_tx")
+            st, tx = observe(net.tx_utils.create_tx, sp, payables, fee)
+            q, m = divmod(2 + x, 2)
+            exp = [q + m, 777, q]
+            got = [o.coin_value for o in tx.txs_out] if st == "ok" else tx
+            if got != exp:
+                rec.violation("longrun.create_tx.outputs_mismatch" + nth(i), case, got, exp)
+                return
+            if i % 8 == 0 or i > 65000:
+                st, f = observe(tx.fee)
+                if st != "ok" or f != fee or tx.unspents[1] is not sp[1]:
+                    rec.violation("longrun.create_tx.fee_or_pairing" + nth(i), case, f, fee)
+                    return
+        rec.case(("longrun", "one_process_create_tx", n_ops), nontrivial=True)
+        if n_ops >= goal:
+            rec.ev("longrun.one_process_create_tx.over_2_16")
+    # 3. one transaction object verified again and again, its record of the second coin right and wrong in turn
+    if only in (None, "one_object_validate"):
+        src = _source_tx(rng, 3, 0)
+        for o in src["outs"]:
+            o["value"] = max(2, o["value"] % 10 ** 9)
+        h = R.txid_bytes(src)
+        db = {h: G.to_pycoin(Tx, src)}
+        sp = [Tx.Spendable(o["value"], o["script"], h, j) for j, o in enumerate(src["outs"])]
+        tx = net.tx_utils.create_tx(sp, [_addresses(name, net)[0]], 1)
+        true_v = src["outs"][1]["value"]
+        for i in range(n_ops):
+            case = {"kind": "longrun", "phase": "one_object_validate", "i": i, "ab": [a, b]}
+            rec.ev("Tx.validate_unspents")
+            st, r = observe(tx.validate_unspents, db)
+            if st != "ok" or r != 1:
+                rec.violation("longrun.validate_unspents.rejects_matching" + nth(2 * i), case, r, 1)
+                return
+            tx.unspents[1].coin_value = true_v + (1 if i % 3 else -1)
+            st, r = observe(tx.validate_unspents, db)
+            tx.unspents[1].coin_value = true_v
+            if st == "ok":
+                rec.violation("longrun.validate_unspents.accepts_discrepancy.amount" + nth(2 * i + 1), case, r, "does not return normally")
+                return
+        rec.case(("longrun", "one_object_validate", n_ops), nontrivial=True)
+        if n_ops >= goal:
+            rec.ev("longrun.one_object_validate.over_2_16")
+
+
+# ---------------------------------------------------------------------------------------------
 # converters
 
 def _dec_strings(x, places):
@@ -1748,6 +2560,12 @@ def run_shard(spec, rec):
         return run_validate(spec, rec, nets)
     if kind == "history":
         return run_history(spec, rec, nets)
+    if kind == "pool":
+        return run_pool(spec, rec, nets)
+    if kind == "longrun":
+        rec.require("distribute_from_split_pool", "create_tx", "Tx.validate_unspents", "Tx.fee", "longrun.refused_then_retried",
+                    *["longrun.%s.over_2_16" % ph for ph in ("one_object_split", "one_process_create_tx", "one_object_validate")])
+        return run_longrun(spec, rec, nets)
     rec.require("create_tx", "expected_error", "expected_tx", "aftermath.spendables_list_edit", "aftermath.second_build")
     rng = shard_rng(spec["seed"], PROPERTY, spec["tier"], spec["shard"])
     names = list(nets)
@@ -1788,6 +2606,19 @@ def replay_case(case, rec):
                          container=case.get("container", "list"),
                          extra={a: int(b) for a, b in case["extra"].items()} if case.get("extra") else None)
         return
+    if kind == "pool":
+        c2 = dict(case)
+        if c2.get("sources"):
+            c2["sources"] = [G.unpack(s_) for s_ in c2["sources"]]
+        found = _pool_alone(name, nets[name], c2)
+        if found:
+            _pool_report(name, nets[name], rec, c2, found[0])
+        return
+    if kind == "reuse":
+        return _run_reuse(name, nets[name], rec, case)
+    if kind == "longrun":
+        return run_longrun({"seed": 0, "tier": "quick"}, rec, nets, only=case["phase"], upto=int(case["i"]) + 1,
+                           ab=[int(v) for v in case["ab"]])
     if kind == "validate":
         def recs(lst):
             return [dict(g, coin_value=int(g["coin_value"]), tx_out_index=int(g["tx_out_index"]), script=G._unpack_bytes(g["script"]),
